@@ -17,6 +17,18 @@ def own_leaf_count(node):
     return sum(own_leaf_count(c) for c in children)
 
 
+def own_route_id(root, x_i, sep="|STOP|"):
+    """independent routing of an instance through a river tree (the nodes' own next / branch_no), rendered in the
+    storage's leaf-id format; the caller only uses it when it is one of the ids the storage itself lists for the tree"""
+    node, path = root, ""
+    for _ in range(10000):
+        if not getattr(node, "children", None):
+            return path + str(node) + sep
+        path += "|".join((str(node), str(node.repr_split), str(node.branch_no(x_i)))) + sep
+        node = node.next(x_i)
+    return None
+
+
 class Stream:
     """mixed categorical / numerical stream with recurring concept drift (DESIGN.md Appendix B)"""
 
@@ -144,7 +156,7 @@ def run_storage(cat, num, max_depth, cap, grace, seed, nupdates, gen, log_from=0
         for f in cat:
             seen_classes[f].add(x[f])
         if x != x_copy:
-            ev.append({"k": "update", "t": t, "f": "*", "leaves": [], "routed": 0, "pre": [], "post": [], "len": len(st),
+            ev.append({"k": "update", "t": t, "f": "*", "leaves": [], "routed": 0, "routed_own": 0, "pre": [], "post": [], "len": len(st),
                        "nleaves_own": -1, "complete": False})
             continue
         if t > log_from:
@@ -153,8 +165,14 @@ def run_storage(cat, num, max_depth, cap, grace, seed, nupdates, gen, log_from=0
                 leaves = [tok(s) for s in get_all_tree_paths(root)]
                 x_i = {k: v for k, v in x.items() if k != f}
                 routed = tok(st.get_path_through_tree(root, x_i))
+                try:
+                    own = own_route_id(root, x_i)
+                except Exception:
+                    own = None
+                # (0: the id format is not the one assumed here - nothing to compare)
+                routed_own = tok(own) if own is not None and own in get_all_tree_paths(root) else 0
                 post, complete = reservoirs(f)
-                ev.append({"k": "update", "t": t, "f": f, "leaves": leaves, "routed": routed, "pre": pre[f], "post": post,
+                ev.append({"k": "update", "t": t, "f": f, "leaves": leaves, "routed": routed, "routed_own": routed_own, "pre": pre[f], "post": post,
                            "len": len(st), "nleaves_own": own_leaf_count(root) if len(set(leaves)) == len(leaves) else -1,
                            "complete": complete})
         if impute_every and t % impute_every == 0 and t > log_from:
